@@ -18,20 +18,21 @@ import (
 )
 
 var (
-	fProp     = flag.String("sim.prop", "", "property id")
-	fFrom     = flag.Uint64("sim.from", 1, "first seed")
-	fCount    = flag.Int("sim.count", 1, "number of seeds")
-	fTier     = flag.String("sim.tier", "quick", "quick|thorough")
-	fOut      = flag.String("sim.out", "", "jsonl result file (append)")
-	fReplay   = flag.String("sim.replay", "", "replay file: JSON {seed,tape}")
-	fTrace    = flag.Bool("sim.trace", false, "include the schedule trace in every result")
-	fSamples  = flag.Int("sim.samples", 3, "number of results that keep their sample")
-	fFinding  = flag.String("sim.finding", "", "known-finding configuration to build")
-	fFeat     = flag.String("sim.features", "", "feature overrides")
-	fBudget   = flag.Duration("sim.budget", 0, "stop starting new runs after this much wall time")
+	fProp      = flag.String("sim.prop", "", "property id")
+	fFrom      = flag.Uint64("sim.from", 1, "first seed")
+	fCount     = flag.Int("sim.count", 1, "number of seeds")
+	fTier      = flag.String("sim.tier", "quick", "quick|thorough")
+	fOut       = flag.String("sim.out", "", "jsonl result file (append)")
+	fReplay    = flag.String("sim.replay", "", "replay file: JSON {seed,tape}")
+	fTrace     = flag.Bool("sim.trace", false, "include the schedule trace in every result")
+	fSamples   = flag.Int("sim.samples", 3, "number of results that keep their sample")
+	fFinding   = flag.String("sim.finding", "", "known-finding configuration to build")
+	fFeat      = flag.String("sim.features", "", "feature overrides")
+	fBudget    = flag.Duration("sim.budget", 0, "stop starting new runs after this much wall time")
 	fTraceFile = flag.String("sim.tracefile", "", "write the schedule trace line by line to this file (survives a crash)")
 	fFree      = flag.Bool("sim.free", false, "free-running mode: goroutine yields do not park (for the race detector; not replayable)")
-	fWatchdog = flag.Duration("sim.watchdog", 120*time.Second, "wall-clock limit for a single run")
+	fAuto      = flag.Bool("sim.auto", false, "instrumented build: machine-inserted interleaving points are live (density, salt and preemption rate come from the tape)")
+	fWatchdog  = flag.Duration("sim.watchdog", 120*time.Second, "wall-clock limit for a single run")
 )
 
 type replayFile struct {
@@ -41,6 +42,7 @@ type replayFile struct {
 	Finding  string   `json:"finding,omitempty"`
 	Features string   `json:"features,omitempty"`
 	Free     bool     `json:"free_running,omitempty"`
+	Auto     bool     `json:"instrumented_build,omitempty"`
 	Tape     []uint32 `json:"tape"`
 }
 
@@ -69,6 +71,14 @@ func runOne(t *testing.T, cfg scen.Config, tp *tape.Tape, seed uint64) (res scen
 		synctest.Test(t, func(t *testing.T) {
 			s = sched.New(tp)
 			s.Free = *fFree
+			if *fAuto {
+				s.TraceCap = 20000
+				// which of the machine-inserted points are live in this run, and how eagerly a
+				// goroutine stopped at one is preempted
+				s.AutoDensity = []int{32, 128, 256}[tp.Choose(3)]
+				s.AutoSalt = uint64(tp.Choose(1 << 30))
+				s.AutoPreempt = []int{1, 4, 16}[tp.Choose(3)]
+			}
 			if *fTraceFile != "" {
 				if f, err := os.OpenFile(*fTraceFile, os.O_CREATE|os.O_TRUNC|os.O_WRONLY, 0o644); err == nil {
 					s.TraceFile = f
@@ -143,6 +153,9 @@ func TestSim(t *testing.T) {
 		}
 		if rf.Features != "" {
 			cfg.Features = rf.Features
+		}
+		if rf.Auto {
+			*fAuto = true
 		}
 		if rf.Free {
 			*fFree = true
